@@ -592,7 +592,8 @@ def run(rep, work, tier, seed, props, replay=None):
         "numpy kernels compute the real functions of Model/RealOps.v / Coq's Reals up to rounding (checked numerically on every run, not proved)",
         "theorems are about real arithmetic; floating-point rounding of the formulas is not modelled",
         "np.isclose(x, 0, atol=1e-162) in Sinc is modelled as x = 0; keyword options of a ufunc class are translated at their defaults (Abs.nan_to_num=True)",
-        "operations that are neither element-wise formulas nor in the exact registry (prod, cumprod, mean, var, std, norm, clip, softmax family, conv_nd, max_pool, batchnorm, gru, losses) are covered "
-        "only by the numerical catalogue (4th-order finite differences of MyGrad's own forward, tolerance 2e-6): validation, not proof",
+        "operations that are neither element-wise formulas, lane reductions (Model/VecOps.v) nor in the exact registry (cumprod, norm, clip, hard_tanh/leaky_relu/glu compositions, batchnorm, gru, "
+        "focal / hinge / margin-ranking / NLL losses) are covered only by the numerical catalogue (4th-order finite differences of MyGrad's own forward, tolerance 2e-6): validation, not proof",
+        "Model/VecOps.v is hand-written from the source (not translated); its formulas are compared with the implementation lane by lane on every run",
         "broadcast reduction and where= masking of element-wise gradients (Operation.backward) are covered by the exact registry (broadcasting) and the catalogue (where=)",
     ]
